@@ -612,6 +612,112 @@ def main(run):
             run.violation("PhonopyQHA", "t_max-prefix", "volume_temperature with t_max is not the prefix of the result without t_max", c["info"])
         run.count("oracle-pressure-shape-tmax", section="oracle")
 
+    # ---------------------------------------------------------------- argument TYPES: the result depends on the VALUES given, not on their container / dtype
+    from phonopy import PhonopyQHA as _PQ2
+    from phonopy.qha.core import QHA as _QHA2, BulkModulus as _BM2
+
+    def _typed(a, kind):
+        a = np.array(a, dtype="double")
+        if kind == "list":
+            return a.tolist()
+        if kind == "int-list":
+            return [[int(x) for x in r_] for r_ in a] if a.ndim == 2 else [int(x) for x in a]
+        if kind == "tuple":
+            return tuple(map(tuple, a.tolist())) if a.ndim == 2 else tuple(a.tolist())
+        if kind == "fortran":
+            return np.asfortranarray(a) if a.ndim == 2 else a[::-1].copy()[::-1]
+        if kind == "strided":
+            big = np.zeros(tuple(2 * n_ + 1 for n_ in a.shape))
+            sl = tuple(slice(0, 2 * n_, 2) for n_ in a.shape)
+            big[sl] = a
+            return big[sl]
+        return a.astype(kind)
+
+    ntype = 9 if thorough else 3
+    for n_ in range(ntype):
+        kind = KINDS[n_ % 3]
+        ntt = rng.randint(6, 9)
+        tt = float(rng.choice([10, 20, 50])) * np.arange(ntt)
+        v_lo = rng.choice([40, 60, 90])
+        vols_t = np.arange(v_lo, v_lo + rng.choice([11, 13]) * 2, 2).astype("double")   # integer-valued grid: identical values in every type
+        V0_ = (vols_t[0] + 0.45 * (vols_t[-1] - vols_t[0])) * (1 + 2e-5 * tt + 5e-9 * tt ** 2)
+        E0_ = -rng.uniform(5, 40) - 1e-6 * tt ** 2
+        B0_ = rng.uniform(0.3, 1.2) * (1 - 1e-4 * tt)
+        Bp_ = rng.uniform(3.5, 5.5) + 0 * tt
+        Pt = float(rng.choice([2, 3, 5, -1]))
+        tot_t = np.array([ref_eos(kind, vols_t, E0_[i], B0_[i], Bp_[i], V0_[i]) for i in range(ntt)])
+        el_t = ref_eos(kind, vols_t, E0_[0] + 0.3, B0_[0] * 1.03, Bp_[0] - 0.1, V0_[0] * 1.004)
+        fph_t = (tot_t - el_t - vols_t * Pt / units.EVAngstromToGPa) * units.EvTokJmol
+        cv_t = np.array([[t_ / (t_ + 150.0) * (40 + 0.1 * (v_ - vols_t.mean())) for v_ in vols_t] for t_ in tt])
+        ent_t = 1.1 * cv_t
+        base_args = dict(volumes=vols_t, electronic_energies=el_t, temperatures=tt, free_energy=fph_t, cv=cv_t, entropy=ent_t, pressure=Pt)
+        pubs = ("volume_temperature", "gibbs_temperature", "bulk_modulus_temperature", "thermal_expansion", "heat_capacity_P_numerical", "gruneisen_temperature")
+
+        def _run(cls, **kw):
+            a_ = dict(base_args)
+            a_.update(kw)
+            a_ = {k_: (v_.copy() if isinstance(v_, np.ndarray) and v_.flags.owndata else v_) for k_, v_ in a_.items()}
+            with warnings.catch_warnings():
+                warnings.simplefilter("ignore")
+                if cls == "PhonopyQHA":
+                    q_ = _PQ2(eos=kind, **a_)
+                else:
+                    q_ = _QHA2(a_["volumes"], a_["electronic_energies"], a_["temperatures"], a_["cv"], a_["entropy"], a_["free_energy"], pressure=a_["pressure"], eos=kind)
+                    q_.run()
+            return [np.array(getattr(q_, nm_), dtype="double") for nm_ in (pubs if cls == "PhonopyQHA" else pubs[:4] + ("heat_capacity_P_numerical", "gruneisen_temperature"))]
+
+        info_t = dict(eos=kind, volumes=vols_t.tolist(), temperatures=tt.tolist(), pressure=Pt, V0=V0_.tolist(), B0=B0_.tolist())
+        base = _run("PhonopyQHA")
+        Lb = len(base[0])
+        if np.abs(base[0] / V0_[:Lb] - 1).max() > 1e-9 or np.abs(base[2] / (B0_[:Lb] * units.EVAngstromToGPa) - 1).max() > 1e-7:
+            if not all(same_as_reference(kind, vols_t, tot_t[i_], (base[1][i_], base[2][i_] / units.EVAngstromToGPa, None, base[0][i_])) for i_ in range(Lb)):
+                run.violation("PhonopyQHA", "recovery-pressure", "float64 arrays: fitted V(T), B(T) differ from the generating EOS (rel V %.3g)" % np.abs(base[0] / V0_[:Lb] - 1).max(), info_t)
+            continue
+        variants = [("volumes", "int-list"), ("volumes", rng.choice(["int32", "int64"])), ("volumes", rng.choice(["tuple", "list", "strided", "float32"])),
+                    ("temperatures", rng.choice(["int-list", "int64", "float32", "tuple"])), ("pressure", rng.choice(["int", "float32", "int64", "float64"])),
+                    ("electronic_energies", rng.choice(["list", "tuple", "strided"])), ("free_energy", rng.choice(["list", "fortran", "strided"])),
+                    ("cv+entropy", rng.choice(["list", "fortran"]))]
+        for (arg, tk) in variants:
+            kw = {}
+            if arg == "pressure":
+                kw["pressure"] = int(Pt) if tk == "int" else getattr(np, tk)(Pt)
+            elif arg == "cv+entropy":
+                kw["cv"], kw["entropy"] = _typed(cv_t, tk), _typed(ent_t, tk)
+            else:
+                kw[arg] = _typed(base_args[arg], tk)
+            tolt = 1e-5 if tk == "float32" else 1e-9   # a float32 volume grid carries the P*V product in single precision
+            for cls in ("PhonopyQHA", "QHA"):
+                site = "%s (argument types)" % cls
+                desc = dict(argument=arg, given_as=tk, **info_t)
+                try:
+                    res_ = _run(cls, **kw)
+                except Exception as e_:
+                    run.violation(site, "argument-type", "%s given as %s is rejected: %s: %s" % (arg, tk, type(e_).__name__, e_), desc)
+                    continue
+                for nm_, a_, b_ in zip(pubs, res_, base):
+                    if a_.shape != b_.shape or np.abs(a_ - b_).max(initial=0.0) > tolt * max(float(np.abs(b_).max(initial=0.0)), 1e-30):
+                        run.violation(site, "argument-type", "%s given as %s: %s differs from the result for the same values as float64 arrays by %.3g (the float64 result equals the generating EOS)" % (
+                            arg, tk, nm_, np.abs(a_ - b_).max() if a_.shape == b_.shape else float("nan")), desc)
+                        break
+                run.count("argument %s as %s" % (arg, tk))
+            run.case(("argtype", kind, arg, tk, vols_t.tobytes(), Pt), nontrivial=True)
+        # BulkModulus / fit_to_eos on the same integer-valued grid: energies E(V) - PV so that the fitted curve is the exact EOS
+        en_b = tot_t[0] - vols_t * Pt / units.EVAngstromToGPa
+        for tk in ("int-list", "int32", rng.choice(["tuple", "strided", "int64"])):
+            for site, fn in (("BulkModulus (argument types)", lambda v_: _BM2(v_, en_b.copy(), pressure=Pt, eos=kind).get_parameters()),
+                             ("phonopy.qha.eos.fit_to_eos (argument types)", lambda v_: EOS.fit_to_eos(v_, tot_t[0].copy(), EOS.get_eos(kind)))):
+                try:
+                    pe_, pb_, pbp_, pv_ = fn(_typed(vols_t, tk))
+                except Exception as e_:
+                    run.violation(site, "argument-type", "volumes given as %s are rejected: %s: %s" % (tk, type(e_).__name__, e_), dict(given_as=tk, **info_t))
+                    continue
+                if (abs(pv_ / V0_[0] - 1) > 1e-9 or abs(pb_ / B0_[0] - 1) > 1e-7 or abs(pe_ - E0_[0]) > 1e-9 * max(1.0, abs(E0_[0]))) and not same_as_reference(
+                        kind, vols_t, tot_t[0], (pe_, pb_, pbp_, pv_)):
+                    run.violation(site, "argument-type", "volumes given as %s: fitted (E0, B0, B0', V0) = (%r, %r, %r, %r), generating EOS (%r, %r, %r, %r)" % (
+                        tk, pe_, pb_, pbp_, pv_, E0_[0], B0_[0], Bp_[0], V0_[0]), dict(given_as=tk, **info_t))
+                run.count("argument volumes as %s (%s)" % (tk, site.split(" ")[0]))
+        run.count("oracle-argument-types", section="oracle")
+
     # ---------------------------------------------------------------- observation (not a property clause): volumes are documented as numbers in A^3; no QHA path
     # takes PhonopyAtoms.volume itself, but a caller who feeds `cell.volume` of LEFT-HANDED cells (negative determinant) gets no error
     if qcases:
